@@ -1,6 +1,6 @@
 SPECIFICATION Spec
 CONSTANTS
-  SingleClasses = {"empty", "zero", "neg1", "one", "typical", "huge", "nonnum", "float", "inf", "wrongsep", "brokenlist"}
+  SingleClasses = {"empty", "zero", "neg1", "one", "typical", "huge", "nonnum", "float", "inf", "wrongsep", "brokenlist", "tickedge"}
   PairClasses = {"zero", "neg1", "one", "typical", "huge", "nonnum", "float", "inf"}
   PairTails = {"mpd", "vnum", "anum", "vtime", "subs_media", "bu_in"}
   PatchClasses = {"empty", "zero", "neg1", "one", "typical", "huge", "nonnum", "float", "inf", "wrongsep", "brokenlist"}
@@ -8,6 +8,7 @@ CONSTANTS
   EarlyClasses = {"empty", "zero", "neg1", "one", "typical", "huge", "nonnum", "float", "inf", "wrongsep", "brokenlist"}
   EarlyPairClasses = {"zero", "one", "typical"}
   EarlyTails = {"mpd", "vnum", "anum", "vtime", "subs_media"}
-  TripleClasses = {"empty", "zero", "neg1", "one", "typical", "huge", "nonnum", "float", "inf"}
+  TripleClasses = {"empty", "zero", "neg1", "one", "typical", "huge", "nonnum", "float", "inf", "tickedge"}
   TripleTails = {"mpd", "vnum", "anum", "num_huge"}
+  SeqMethods = {"PUT", "POST"}
 INVARIANTS TypeOK Sane Emit
